@@ -21,14 +21,14 @@ ASSUMPTIONS = ["nodes whose children are out of bounds or not ordered by start a
                "RecursionError on trees deeper than ~1000 is C01's finding"]
 EXPECTED_WALL = {"quick": 40, "thorough": 300}
 REQUIRED = {"flatten_judged": 625, "flatten_substituted": 62, "scan_results_judged": 25, "identity_trees": 12,
-            "squash_compared": 62, "quoted_substitutions": 6, "incremental_expansions": 12}
+            "squash_compared": 62, "quoted_substitutions": 6, "incremental_expansions": 12, "plain_by_construction": 25}
 
 
 def plan(tier, seed):
     quick = tier == "quick"
     secs = 20 if quick else 200
     shards = [{"name": f"trees{i}", "gen": "trees", "seconds": secs} for i in range(6 if quick else 8)]
-    for g in ("matryoshka", "cmd", "seedmut", "url", "ioc", "soup", "repeat", "layer", "echo", "expand", "xorbytes"):
+    for g in ("matryoshka", "cmd", "seedmut", "url", "ioc", "soup", "repeat", "layer", "echo", "expand", "xorbytes", "plainnest"):
         shards.append({"name": g, "gen": g, "seconds": secs})
     return shards
 
@@ -119,6 +119,15 @@ def judge_scan(data, depth, ctx, label):
                 report("flatten:undecoded-scan-changed", "nothing was decoded but flatten differs from the input")
         except RecursionError:
             pass
+    if label == "plainnest":
+        # nothing in this input is decoded BY CONSTRUCTION (independent of what the tree claims)
+        ctx.count("plain_by_construction")
+        try:
+            flat = root.flatten()
+        except RecursionError:
+            flat = data
+        if flat.lower() != data.lower():  # up to letter case: a keyword node carries the listed spelling of the keyword
+            report("flatten:plain-input-changed", f"an input made of plain indicators only flattens to {flat[:120]!r}")
     ctx.sample_light(case, root)
     # incremental expansion: flatten was just called on every node; expanding the tree further must be reflected
     if depth is not None and 0 < depth <= 3 and root.children:
